@@ -13,6 +13,7 @@
 -/
 import Chrono.Spec.TimeSpec
 import Chrono.Spec.DateSpec
+import Chrono.Model.DateTime
 namespace Chrono.Spec.Text
 open Chrono.M
 
@@ -32,6 +33,10 @@ def yearText (y : Int) : List Nat :=
 
 def dateText (y : Int) (m d : Nat) : List Nat := yearText y ++ [45] ++ decN 2 m ++ [45] ++ decN 2 d
 
+/-- the text of a packed date: its year, and the month and day of its ordinal -/
+def dateTextOf (d : Date) : List Nat :=
+  dateText d.year (monthOfYo d.year d.ordinal.toNat) (dayOfYo d.year d.ordinal.toNat)
+
 /-- number of fraction digits: the fewest of 0, 3, 6, 9 that lose nothing -/
 def fracDigits (nano : Nat) : Nat :=
   if nano % 1000000000 = 0 then 0 else if nano % 1000000 = 0 then 3 else if nano % 1000 = 0 then 6 else 9
@@ -48,6 +53,9 @@ def shownNano (t : Time) : Nat := (t.frac % 1000000000).toNat
 def timeText (t : Time) : List Nat :=
   decN 2 (hourOf t).toNat ++ [58] ++ decN 2 (minuteOf t).toNat ++ [58] ++ decN 2 (shownSecond t) ++
     fracText (shownNano t)
+
+/-- date, separator (`T` = 84 in `Debug`, space = 32 in `Display`), time -/
+def naiveText (sep : Nat) (dt : NaiveDT) : List Nat := dateTextOf dt.date ++ (sep :: timeText dt.time)
 
 /-- `+hh:mm` for a whole-minute offset of less than a day -/
 def offsetText (off : Int) : List Nat :=
